@@ -167,7 +167,13 @@ def run_segment(rep, tier, seed, out_dir, k1, model):
     c = vlib.run_lines(k1, lines, shards=4)
     m = vlib.run_lines(model, lines, shards=vlib.NCPU)
     rep.evaluated(len(lines))
-    bad = vlib.diff_cases(rep, lines, c, m, 'skiplist-memtable')
+    def _fails(meta, o):
+        if o.startswith('CRASH'): return True
+        if meta is None or o.startswith('EXC'): return False
+        return bool(skiplist_oracle(meta[1], meta[2], o) if meta[0] == 'sl' else memtable_oracle(meta[1], meta[2], meta[3], o))
+    failing = {i for i, ((line, meta), o) in enumerate(zip(cases, c)) if _fails(meta, o)}
+    bad = vlib.diff_cases(rep, lines, c, m, 'skiplist-memtable', failing=failing,
+                          correspondence='Skiplist.v / Memtable.v vs ldb_skiplist_* / ldb_memtable_* : theorems Properties_C01c.C01_skiplist_*, C01_memtable_*')
     nor = 0
     for (line, meta), o in zip(cases, c):
         if meta is None or o.startswith('CRASH') or o.startswith('EXC'):
